@@ -168,7 +168,7 @@ def phonon_file_text(ds, title="synthetic"):
     L.append("")
     L.append("weight")
     for q in range(nq):
-        L.append(" ".join(f"{c:22.16f}" for c in ds["qcoords"][q]) + f" {ds['weights'][q]:22.14f}")
+        L.append(" ".join(f"{c:22.16f}" for c in ds["qcoords"][q]) + f" {ds['weights'][q]:.17g}")
     return "\n".join(L) + "\n"
 
 
